@@ -24,6 +24,11 @@ CatVersions(cat, name) == {cat[i].version : i \in {j \in 1..Len(cat) : cat[j].na
 CatGet(cat, name, ver) == cat[CHOOSE i \in 1..Len(cat) : cat[i].name = name /\ cat[i].version = ver]
 MaxIn(S) == CHOOSE x \in S : \A y \in S : y <= x
 TextSlots(ts) == [i \in 1..Len(ts) |-> Slot(ts[i])]
+\* An element of a symbols list that is not a string (null.string, an int, ...) still takes an ID, without text.
+\* In item descriptions such elements are written as these sentinels (not valid UTF-8 text of any catalogue).
+GapNull == <<0, 1>>
+GapInt == <<0, 2>>
+SymSlots(ts) == [i \in 1..Len(ts) |-> IF ts[i] \in {GapNull, GapInt} THEN Undef ELSE Slot(ts[i])]
 
 \* [ok, slots]
 ResolveDecl(d, cat) ==
@@ -46,8 +51,8 @@ StepCat(s, it, cat) ==
   ELSE CASE it.k = "bvm" -> [s EXCEPT !.ctx = SystemSlots]
          [] it.k = "replace" -> LET r == ResolveDecls(it.imps, cat)
                                 IN IF ~r.ok THEN [s EXCEPT !.err = TRUE]
-                                   ELSE [s EXCEPT !.ctx = SystemSlots \o r.slots \o TextSlots(it.syms)]
-         [] it.k = "append" -> [s EXCEPT !.ctx = s.ctx \o TextSlots(it.syms)]
+                                   ELSE [s EXCEPT !.ctx = SystemSlots \o r.slots \o SymSlots(it.syms)]
+         [] it.k = "append" -> [s EXCEPT !.ctx = s.ctx \o SymSlots(it.syms)]
          [] it.k = "val" -> IF ~ValidSid(s.ctx, it.sid) THEN [s EXCEPT !.err = TRUE]
                             ELSE [s EXCEPT !.seen = Append(@, Resolve(s.ctx, it.sid))]
 
